@@ -226,7 +226,13 @@ func runProperty(id, tier string, seed int, reg Registry, only string, workers i
 		cfg := symex.ExploreConfig{Entry: fn, Workers: workers, MaxPaths: tc.MaxPaths, MaxSteps: h.MaxSteps,
 			Solver: h.Solver, TimeoutMs: h.Timeout, Params: tc.Params, KeepFuncs: true, SampleModels: 3, StopOnViol: 25}
 		if cfg.MaxPaths == 0 {
-			cfg.MaxPaths = 200000
+			cfg.MaxPaths = 400000
+		}
+		// wall-clock guard per harness: hitting it is INCONCLUSIVE, never a pass
+		if tier == "thorough" {
+			cfg.Deadline = time.Now().Add(90 * time.Minute)
+		} else {
+			cfg.Deadline = time.Now().Add(20 * time.Minute)
 		}
 		res := in.Explore(cfg)
 		rep := &harnessReport{H: h, Tier: tc, Res: res, Aborts: map[string]int{}, Reach: map[string]int{}, Funcs: map[string]bool{}}
